@@ -14,7 +14,9 @@ def find_chr(data: bytes) -> list[Node]:
     out = []
     for match in re.finditer(CHR_RE, data):
         try:
-            character = chr(int(match.group(1))).encode()
+            # Leading zeros carry no value; dropping them keeps the conversion independent of the
+            # interpreter's limit on integer string conversion length (PYTHONINTMAXSTRDIGITS)
+            character = chr(int(match.group(1).lstrip(b"0") or b"0")).encode()
         except (ValueError, UnicodeEncodeError):
             continue
         out.append(Node("string", character, "function.chr", *match.span()))
